@@ -10,6 +10,7 @@ open Teletype
 open XmlLex
 open XmlTree
 open NsTable
+open Dom
 
 type sx = A of string | L of sx list
 
@@ -112,6 +113,43 @@ let sx_of_tok (t : tok) : sx =
   | TkEnd n -> L [A "N"; sx_of_str n]
   | TkChars s -> L [A "T"; sx_of_str s]
 
+(* DOM heap *)
+let cur_heap : heap option ref = ref None
+let sx_of_idopt = function None -> A "N" | Some i -> A (string_of_int (int_of_nat i))
+let idopt_of_sx = function A "N" -> None | A i -> Some (nat_of_int (int_of_string i)) | _ -> failwith "idopt"
+let nat_of_sx x = nat_of_int (int_of_sx x)
+let nrec_of_sx = function
+  | L [k; par; L ks; pv; nx; ow; sn] ->
+      { kind = (match k with A "T" -> KText | A "C" -> KCData | L [A "E"; q] -> KElem (nat_of_sx q) | _ -> failwith "kind");
+        parent = idopt_of_sx par; kids = SL.map nat_of_sx ks; prev = idopt_of_sx pv; next = idopt_of_sx nx;
+        owner = bool_of_sx ow; sname = idopt_of_sx sn }
+  | _ -> failwith "nrec"
+let sx_of_nrec (r : nrec) : sx =
+  L [ (match r.kind with KText -> A "T" | KCData -> A "C" | KElem q -> L [A "E"; sx_of_nat q]);
+      sx_of_idopt r.parent; L (SL.map sx_of_nat r.kids); sx_of_idopt r.prev; sx_of_idopt r.next;
+      sx_of_bool r.owner; sx_of_idopt r.sname ]
+let heap_of_sx = function
+  | L [L recs; L ed; L sd] ->
+      let arr = Array.of_list (SL.map nrec_of_sx recs) in
+      let dflt = { kind = KText; parent = None; kids = []; prev = None; next = None; owner = false; sname = None } in
+      { nodes = (fun i -> let j = int_of_nat i in if j < Array.length arr then arr.(j) else dflt);
+        alloc = nat_of_int (Array.length arr);
+        edict = SL.map (function L [q; L l] -> (nat_of_sx q, SL.map nat_of_sx l) | _ -> failwith "edict") ed;
+        sdict = SL.map (function L [n; i] -> (nat_of_sx n, nat_of_sx i) | _ -> failwith "sdict") sd }
+  | _ -> failwith "heap"
+let sx_of_heap (h : heap) : sx =
+  let n = int_of_nat h.alloc in
+  L [ L (SL.init n (fun i -> sx_of_nrec (h.nodes (nat_of_int i))));
+      L (SL.map (fun (q, l) -> L [sx_of_nat q; L (SL.map sx_of_nat l)]) h.edict);
+      L (SL.map (fun (nm, i) -> L [sx_of_nat nm; sx_of_nat i]) h.sdict) ]
+let op_of_sx = function
+  | L [A "append"; p; c] -> OAppend (nat_of_sx p, nat_of_sx c)
+  | L [A "insert"; p; c; r] -> OInsert (nat_of_sx p, nat_of_sx c, idopt_of_sx r)
+  | L [A "remove"; p; c] -> ORemove (nat_of_sx p, nat_of_sx c)
+  | L [A "addelement"; p; c; a] -> OAddElement (nat_of_sx p, nat_of_sx c, bool_of_sx a)
+  | L [A "addtext"; p; a; e; cd] -> OAddText (nat_of_sx p, bool_of_sx a, bool_of_sx e, bool_of_sx cd)
+  | _ -> failwith "op"
+
 let dispatch (f : string) (args : sx list) : sx =
   match f, args with
   | "tt_encode", [s] -> L (SL.map sx_of_tnode (Teletype.encode (str_of_sx s)))
@@ -145,6 +183,15 @@ let dispatch (f : string) (args : sx list) : sx =
   | "ns_prefix", [d; n; ns] ->
       let st0 = { nd = env_of_sx d; nsp = env_of_sx n } in
       sx_of_str (snd (NsTable.get_nsprefix st0 (str_of_sx ns)))
+  | "dom_init", [h] -> cur_heap := Some (heap_of_sx h); A "ok"
+  | "dom_step", [o] ->
+      (match !cur_heap with
+       | None -> failwith "no heap"
+       | Some h ->
+           let r = Dom.step h (op_of_sx o) in
+           let h' = Dom.heap_of r in
+           cur_heap := Some h';
+           L [ (match r with ROk _ -> A "Ok" | RRaise (e, _) -> L [A "Raise"; sx_of_exn e]); sx_of_heap h' ])
   | _ -> failwith ("unknown function " ^ f)
 
 let () =
